@@ -206,6 +206,8 @@ def c10_specs(r):
                 ne[k] = ne.get(k, 0) + 1
         if ob.get("task_errors"):
             qs.append(("spec eq 0 1", {"what": "aio no_propagation: a supervising task ended with the exception", "op": i, "errors": ob["task_errors"][:2]}))
+        for (f_, a_) in ob.get("handler_saw", []):
+            qs.append((f"spec le {f_} {a_}", {"what": "aio failed_le_attempts while the failure is being logged", "op": i, "failed": f_, "attempts": a_}))
         for k, v in ob["jobs"].items():
             qs.append((f"spec eq {v[3]} {nx.get(k, 0)}", {"what": "aio failed_attempts = raising runs", "key": k, "op": i}))
             qs.append((f"spec eq {v[2]} {nx.get(k, 0) + ne.get(k, 0)}", {"what": "aio attempts = completed runs", "key": k, "op": i}))
